@@ -11,3 +11,32 @@ package middlewares
 //@   at-call fiber.Ctx.Next {C15} [create-gate] when singlePath.MatchString(ctx.Path()) && ctx.Method() == "PUT" \
 //@        && !q.Has("acl") && !q.Has("tagging") && !q.Has("versioning") && !q.Has("policy") && !q.Has("object-lock") \
 //@        && !q.Has("ownershipControls") && !q.Has("cors") :: requires !readonly
+
+// ---- C02: no handler runs before the request is authenticated -------------------------------
+// ctx.Next() is reached only when (a) the presigned middleware already authenticated the request,
+// (b) the request is a streaming upload and the reader that verifies the signature at end of stream
+// was installed, or (c) the payload hash matched and the signature check returned nil.
+// Every other return is an error response.
+//@ func VerifyV4Signature$1
+//@   at-call fiber.Ctx.Next {C02} [next-only-when-authenticated] requires typeIs(ctx.Locals("account"), auth.Account) \
+//@        || (utils.IsBigDataAction(ctx) && called("middlewares.wrapBodyReader")) \
+//@        || (called("utils.CheckValidSignature") && err == nil && (utils.IsSpecialPayload(hashPayload) || hashPayload == hexPayload))
+//@   at-call middlewares.sendResponse {C02} [other-returns-are-errors] requires $1 != nil
+//@   at-call utils.CheckValidSignature {C02} [verified-with-the-account-secret] requires $2 == account.Secret && $1 == authData && $0 == ctx && $4 == tdate
+
+//@ func VerifyV4Signature$1$1
+//@   at-call utils.NewAuthReader {C02} [deferred-check-uses-the-account-secret] requires $3 == account.Secret && $2 == authData && $0 == ctx
+//@ func VerifyPresignedV4Signature$1$1
+//@   at-call utils.NewPresignedAuthReader {C02} [deferred-check-uses-the-account-secret] requires $3 == account.Secret && $2 == authData && $0 == ctx
+
+//@ func VerifyPresignedV4Signature$1
+//@   at-call fiber.Ctx.Next {C02} [next-only-when-authenticated] requires ctx.Query("X-Amz-Signature") == "" \
+//@        || (utils.IsBigDataAction(ctx) && called("middlewares.wrapBodyReader")) \
+//@        || (called("utils.CheckPresignedSignature") && err == nil)
+//@   at-call middlewares.sendResponse {C02} [other-returns-are-errors] requires $1 != nil
+//@   at-call utils.CheckPresignedSignature {C02} [verified-with-the-account-secret] requires $2 == account.Secret && $1 == authData && $0 == ctx
+
+//@ func sendResponse
+//@   frame none
+//@ func wrapBodyReader
+//@   frame none
